@@ -1,0 +1,27 @@
+//! Verification facade and simulation seams (cargo feature `verif-hooks`).
+//!
+//! The per-file facades live in child modules of the files they expose
+//! (`dns_parser::verif_hooks`, ...) so that they can read private fields; they are
+//! re-exported here.  This module itself holds the state shared by the seams.
+
+pub use crate::dns_parser::verif_hooks as parser;
+pub use crate::service_info::verif_hooks as info;
+
+/// Virtual clock: when set, `current_time_millis()` returns it instead of the system time.
+pub mod clock {
+    use std::sync::atomic::{AtomicU64, Ordering};
+
+    const UNSET: u64 = u64::MAX;
+    static NOW: AtomicU64 = AtomicU64::new(UNSET);
+
+    pub fn set(now: Option<u64>) {
+        NOW.store(now.unwrap_or(UNSET), Ordering::SeqCst);
+    }
+
+    pub fn get() -> Option<u64> {
+        match NOW.load(Ordering::SeqCst) {
+            UNSET => None,
+            t => Some(t),
+        }
+    }
+}
